@@ -323,7 +323,7 @@ def search(pid, failure, tier, seed):
                 if why:
                     return dict(case=c, result=o, why=why, replay_kind=pid)
     from . import scen
-    if pid in ('C11', 'C13', 'C14', 'C16', 'C17', 'C12', 'C07'):
+    if pid in ('C11', 'C13', 'C14', 'C16', 'C17', 'C12', 'C07', 'C19'):
         hit = scen.search_special(run_cases, pid, rng, 240 if tier == 'quick' else 6000)
         if hit:
             return hit
